@@ -888,7 +888,9 @@ func (c *compiler) VisitUnaryExpr(e *ast.UnaryExpr) ast.VisitResult {
 			)
 			c.latestReturnType = c.ddpinttyp
 		case c.ddpbytetyp:
-			// a byte is unsigned and therefore does not need to be changed
+			// a byte is unsigned and therefore only needs to be widened to the result type (Zahl)
+			c.latestReturn = c.floatOrByteAsInt(rhs, c.ddpbytetyp)
+			c.latestReturnType = c.ddpinttyp
 		default:
 			c.err("invalid Parameter Type for BETRAG: %s", typ.Name())
 		}
